@@ -40,20 +40,35 @@ def run(ctx, rep):
     ex = "fastpasta::util::lib::exit"
     tb = ev.tb(ex)
     if tb:
-        out = ev.collect_ifs(ex, [Sym("CODE"), Sym("FLAG")])
-        conds = [ckey(o["cond"]) for o in out if "cond" in o]
-        import re as _re
-        norm = _re.sub(r"Ordering::\w+\(\)", "Ordering", conds[1]) if len(conds) == 2 else ""
-        ok = len(conds) == 2 and conds[0] == "Eq(sym(CODE),0x0)" and \
-            _re.fullmatch(r"and\[symc\(isSome\(sym\([^;]*\.any_errors_exit_code\)\)\);symc\(sym\(call:core::sync::atomic::Atomic::<bool>::load\(sym\(FLAG\),Ordering\)\)\)\]", norm) is not None
-        rep.check(ok, "R16.1", "R16.1|exit_table", "exit(): code 0 ∧ any-errors code configured ∧ flag ⇒ N; code 0 otherwise ⇒ SUCCESS; else the code", ex,
-                  "exit() conditions are %s" % conds)
-        # the N returned is the configured code; SUCCESS otherwise; else from(exit_code)
-        b = cg.body(ex)
-        froms = [(bb, t) for bb, t, cal, c in b.calls() if cal and cal.endswith("ExitCode as core::convert::From<u8>>::from")]
-        srcs = sorted(show_origin(b.origin(t["args"][0])) for bb, t in froms)
-        ok2 = len(froms) == 2 and any("any_errors_exit_code" in s for s in srcs) and any(s == "arg1" for s in srcs)
-        rep.check(ok2, "R16.1", "R16.1|exit_values", "exit() returns the configured any-errors code or the processing code itself", ex, "ExitCode::from sources: %s" % srcs)
+        # the truth table of exit() over (processing code, configured any-errors code, flag), obtained by evaluating
+        # the function for all eight combinations — independent of how its conditions are nested or ordered
+        from ..thir import Agg as _Agg, Bits as _Bits, Cond as _Cond, vkey as _vkey
+        rows = {}
+        unevaluable = None
+        for code in (0, 5):
+            for cfg in (None, 7):
+                for flag in (False, True):
+                    ev.call_hooks = [
+                        (lambda fn, res: fn.endswith("::any_errors_exit_code"), lambda n, a, cfg=cfg: _Agg("core::option::Option", "Some", {"0": _Bits.const(cfg, 8)}) if cfg is not None else _Agg("core::option::Option", "None", {})),
+                        (lambda fn, res: fn.endswith("Atomic::<bool>::load") or fn.endswith("AtomicBool::load"), lambda n, a, flag=flag: _Cond("true" if flag else "false")),
+                        (lambda fn, res: fn.endswith("ExitCode as core::convert::From<u8>>::from") or (fn.endswith("From::from") and "ExitCode" in (res or "")), lambda n, a: Sym("EXIT(%s)" % _vkey(a[0]))),
+                    ]
+                    try:
+                        r = ev.call_fn(ex, [_Bits.const(code, 8), Sym("FLAG")])
+                        rows[(code, cfg, flag)] = _vkey(r)
+                    except Unsupported as e:
+                        unevaluable = str(e)
+                    finally:
+                        ev.call_hooks = []
+        want = {}
+        for code in (0, 5):
+            for cfg in (None, 7):
+                for flag in (False, True):
+                    want[(code, cfg, flag)] = "sym(EXIT(0x5))" if code else ("sym(EXIT(0x7))" if (cfg is not None and flag) else "SUCCESS")
+        norm = {k: ("SUCCESS" if "SUCCESS" in v and "EXIT(" not in v else v) for k, v in rows.items()}
+        bad = {k: norm.get(k) for k in want if norm.get(k) != want[k]}
+        rep.check(not bad and unevaluable is None, "R16.1", "R16.1|exit_table", "exit(): code 0 ∧ any-errors code configured ∧ flag ⇒ N; code 0 otherwise ⇒ SUCCESS; else the code (8 combinations evaluated)", ex,
+                  "exit() deviates for (code, configured, flag) = %s%s" % (bad, (" — " + unevaluable) if unevaluable else ""))
     else:
         rep.missing("R16.1", ex)
     ir = "fastpasta::init::run"
